@@ -426,6 +426,9 @@ func vfC15Run(c vfC15Case, ctx *vlib.Ctx) *vlib.Failure {
 			sort.Strings(ids)
 			sid := ids[op.N%len(ids)]
 			ws := indexed()[sid]
+			if ws == nil {
+				return vlib.Failf("configure:result-not-indexed", "%s: WorkSpaceIDs lists %s which is not indexed", where, sid)
+			}
 			act := engine.Remove
 			if op.K == "delete" {
 				act = engine.Delete
